@@ -137,6 +137,11 @@ O('rowreduce', 1, lambda e, s, kw: e.rowreduce(s[0], 'a', f_reducer,
   key='a')
 O('aggregate', 1, lambda e, s, kw: e.aggregate(s[0], 'a', _count, 'c', **kw),
   key='a')
+# (fields given by position: the key by index 1, the value by index 2)
+O('aggregate-keyindex', 1,
+  lambda e, s, kw: e.aggregate(s[0], 1, list, 'c', **kw), key='b')
+O('aggregate-valueindex', 1,
+  lambda e, s, kw: e.aggregate(s[0], 'a', list, 2, **kw), key='a')
 O('aggregate-multi', 1,
   lambda e, s, kw: e.aggregate(s[0], 'a', {'n': len, 'cs': ('c', list)},
                                **kw), key='a')
